@@ -47,7 +47,8 @@ MCProgs(st) ==
     << Op("NR"), Op("NR"), Op("RM") >>,
     << Op("NR"), Rl(4096), Op("NR"), Rl(512), Op("NR") >>,
     << Op("NR"), Rd(1), Op("NR"), Op("RA"), Op("NR") >>,
-    << Op("NR"), Rd(2), Rd(125), Op("RA"), Op("RM"), Op("RM") >> }
+    << Op("NR"), Rd(2), Rd(125), Op("RA"), Op("RM"), Op("RM") >>,
+    << Ja(0), Op("NR") >>, << Ja(1), Op("NR") >>, << Op("RM"), Ja(3), Op("RM") >> }
   \cup (IF HasComp(st) THEN {} ELSE { << Op("NR"), Rd(2), Rd(125), Op("RF"), Op("RM"), Op("RM") >> })
   \cup (IF Total(st) <= 600 THEN {<< Op("NR"), Rl(1), Op("NR"), Rl(7), Op("NR") >>} ELSE {})
 =============================================================================
